@@ -145,7 +145,7 @@ def r7_1(ctx: Ctx) -> None:
     ok_imp = bool(imp) and bool(imp_rule) and all(
         g.path_avoiding(imp + imp_rule, no_rule_edge, start=me.dst) is None for me in match_edges)
     imp_ids = {x.id for x in imp}
-    unavoidable = g.path_avoiding([g.exit], lambda e: is_match(e) or rule_set_edge(e), blocked_nodes=imp_ids) is None
+    unavoidable = g.path_avoiding([g.exit], lambda e: is_match(e) or rule_set_edge(e), blocked_nodes=imp_ids | {x.id for x in early}) is None
     ctx.record("R7.1", ctx.key(fn, "implicit action exactly when no rule matched"), fn.loc(), ok_imp and unavoidable,
                "implicit verdict/rule are stored on, and only on, the no-match edge" if ok_imp and unavoidable else
                "implicit action is not tied to the no-match case")
@@ -157,6 +157,22 @@ def r7_1(ctx: Ctx) -> None:
             tbl.append((ia, r))
         okt = all(r is not UNKNOWN and bool(r) == (ia == "PERMIT") for ia, r in tbl)
         ctx.record("R7.1", ctx.key(fn, "implicit verdict = (implicit_action == PERMIT)"), fn.loc(imp[0].ast), okt, f"table {tbl}")
+    # the two results have no other source: the deciding rule is the rule under the scan or the implicit rule, the verdict is what
+    # that rule's own check said or the implicit action (a remembered verdict, a verdict recomputed from the rule's action ... are
+    # not the first-match verdict of *this* evaluation)
+    foreign = []
+    for v, i, st in ld.defs.get(rr, []):
+        if v is None or (isinstance(v, ast.Constant) and v.value is None) or unparse(v) in (lv, "self.implicit_rule"):
+            continue
+        foreign.append(f"L{getattr(st, 'lineno', 0)}: {rr} = {unparse(v)[:50]}")
+    for v, i, st in ld.defs.get(pvar, []):
+        if v is None or (isinstance(v, ast.Constant) and v.value is False) or (i is not None and isinstance(v, ast.Call) and call_name(v) == "permit_frame_check") \
+                or "implicit_action" in unparse(v):
+            continue
+        foreign.append(f"L{getattr(st, 'lineno', 0)}: {pvar} = {unparse(v)[:50]}")
+    ctx.record("R7.1", ctx.key(fn, "verdict and deciding rule come only from the scan or the implicit rule"), fn.loc(), not foreign,
+               f"`{pvar}` and `{rr}` are bound by the scan, the implicit rule and their initialisation only" if not foreign else
+               "another source decides: " + "; ".join(foreign[:3]))
     init_none = [v for v, i, _ in ld.defs.get(rr, []) if isinstance(v, ast.Constant) and v.value is None]
     ctx.record("R7.1", ctx.key(fn, "no deciding rule before the scan"), fn.loc(), bool(init_none), f"`{rr}` starts as None")
     incs = [n for n in g.nodes if n.kind == "stmt" and isinstance(n.ast, ast.AugAssign) and unparse(n.ast.target).endswith("match_count")]
